@@ -29,8 +29,8 @@ SimNext == /\ UNCHANGED c_cell
 \* ==============================================================================================
 \* Part B: call form x function kind.  Strict-mode semantics (this is undefined in plain calls).
 \* Driver setup (checks/c08_driver.py):  every function takes (a, b) and returns the probe
-\*   [this, arguments.length, arguments[0], arguments[1], a, b];  calls pass (1, 2);
-\*   bound = fd.bind(bt, 5);  the arrow is created inside host.mk(7, 8);  native = Object.prototype.valueOf;
+\*   [this, arguments.length, arguments[0], arguments[1], a, b] and has THREE parameters (a, b, c);  calls pass (1, 2);
+\*   bound = fd.bind(bt, 5, 6);  the arrow is created inside host.mk(7, 8);  native = Object.prototype.valueOf;
 \*   the getter is a literal accessor of recv (form "method" = the property access recv.f);
 \*   form "arrow" calls recv.go() with go = function(){ return (() => this.f(1, 2))(); }.
 Forms == {"method", "plain", "call", "apply", "bind", "new", "arrow"}
@@ -52,7 +52,7 @@ D(v, d) == <<v, d>>
 Args(n, x, y, pa, pb) == ("alen" :> P(n)) @@ ("a0" :> P(x)) @@ ("a1" :> P(y)) @@ ("pa" :> P(pa)) @@ ("pb" :> P(pb))
 ArgsD(n, x, y, pa, pb, d) == ("alen" :> D(n, d)) @@ ("a0" :> D(x, d)) @@ ("a1" :> D(y, d)) @@ ("pa" :> D(pa, d)) @@ ("pb" :> D(pb, d))
 Inst(b) == ("linked" :> P(b)) @@ ("inst" :> P(b))
-KindLength(kind) == CASE kind = "getter" -> "n0" [] kind = "bound" -> "n1" [] kind = "native" -> "n0" [] OTHER -> "n2"
+KindLength(kind) == CASE kind = "getter" -> "n0" [] kind = "bound" -> "n1" [] kind = "native" -> "n0" [] OTHER -> "n3"
 KindName(kind) == CASE kind = "decl" -> "'fd" [] kind = "expr" -> "'fe" [] kind = "named" -> "'nm" [] kind = "arrow" -> "'"
                     [] kind = "method" -> "'f" [] kind = "propfn" -> "'f" [] kind = "getter" -> "'get f"
                     [] kind = "bound" -> "'bound fd" [] kind = "native" -> "'valueOf"
@@ -73,7 +73,7 @@ RefCell(form, kind) ==
              ELSE okout @@ ("this" :> P(ThisOf(form))) @@ Inst("false") @@ Args("n2", "n1", "n2", "u", "u")
         [] kind = "bound" ->                                  \* bound this wins over every call form; new ignores it
              okout @@ ("this" :> P(IF isnew THEN "@?" ELSE "@bt")) @@ Inst(IF isnew THEN "true" ELSE "false")
-                   @@ Args("n3", "n5", "n1", "n5", "n1")
+                   @@ Args("n4", "n5", "n6", "n5", "n6")
         [] kind = "native" ->
              IF form = "plain" THEN throw
              ELSE okout @@ ("this" :> P(ThisOf(form))) @@ Inst("false") @@ Args("u", "u", "u", "u", "u"))
